@@ -309,8 +309,8 @@ Lemma open_keyed_authentic k d ms : open_dgram (Some k) d = Ok ms -> authentic k
 Proof.
   unfold open_dgram, authentic. intros H.
   destruct (d_body d) as [k' sh p| |]; cbn in H; try discriminate.
-  destruct ((k =? k') && header_eqb sh (d_hdr d) && (h_len (d_hdr d) =? len p)) eqn:E; cbn in H; [|discriminate].
-  apply Bool.andb_true_iff in E as [E E3]. apply Bool.andb_true_iff in E as [E1 E2].
+  destruct ((k =? k') && header_eqb sh (d_hdr d) && (len p <=? h_len (d_hdr d)) && (h_len (d_hdr d) <=? len p + 16)) eqn:E; cbn in H; [|discriminate].
+  apply Bool.andb_true_iff in E as [E E4]. apply Bool.andb_true_iff in E as [E E3]. apply Bool.andb_true_iff in E as [E1 E2].
   apply header_eqb_eq in E2. exists p. split; [|lia]. f_equal; auto; lia.
 Qed.
 
@@ -757,11 +757,11 @@ Section Aead.
   Proof.
     intros k h c ms H. unfold open_dgram, body_view in H. cbn in H.
     destruct (open k h c) as [p|] eqn:O; cbn in H; [|discriminate].
-    destruct ((k =? k) && header_eqb h h && (h_len h =? len p)); cbn in H; [|discriminate].
+    destruct ((k =? k) && header_eqb h h && (len p <=? h_len h) && (h_len h <=? len p + 16)); cbn in H; [|discriminate].
     exists p. split; auto.
   Qed.
 
   Theorem sealed_is_authentic_proof : forall k h p,
     h_len h = len p -> authentic k {| d_hdr := h; d_body := body_view CT open k h (seal k h p) |}.
-  Proof. intros k h p L. unfold authentic, body_view. cbn. rewrite open_seal. exists p. auto. Qed.
+  Proof. intros k h p L. unfold authentic, body_view. cbn. rewrite open_seal. exists p. split; [reflexivity|lia]. Qed.
 End Aead.
